@@ -392,3 +392,123 @@ def rule_term_sharing(ctx):
     else:
         r.bad(Finding("term-sharing", "LocalHamGen.__init__", "both sites of a pair are not registered as covered", where=where, operand="covering"))
     return r
+
+
+# --------------------------------------------------------- memo-key-complete
+def rule_memo_key_complete(ctx):
+    r = RuleResult(
+        "memo-key-complete",
+        "in the TEBD / local-Hamiltonian classes a memoised value may depend only on what its key records: every "
+        "value-carrying attribute self.<a> that flows into the cached expression (directly or through locals) and "
+        "that is assigned anywhere outside __init__ must appear in the key — otherwise a later call with a changed "
+        "attribute (e.g. the time step) is served the stale entry",
+    )
+    n = 0
+    for modname in ("quimb.tensor.tn1d.tebd", "quimb.tensor.tnag.tebd", "quimb.tensor.tn2d.tebd", "quimb.tensor.tn3d.tebd"):
+        m = ctx.prog.module(modname)
+        for cls in m.classes.values():
+            # attributes assigned outside __init__ anywhere in the hierarchy
+            mutable = set()
+            for c in cls.mro + cls.all_subclasses():
+                for name, g in c.methods.items():
+                    if g.is_alias or isinstance(g.node, ast.Lambda) or name == "__init__":
+                        continue
+                    for x in ast.walk(g.node):
+                        if isinstance(x, (ast.Assign, ast.AugAssign)):
+                            for t in (x.targets if isinstance(x, ast.Assign) else [x.target]):
+                                for tt in ast.walk(t):
+                                    if isinstance(tt, ast.Attribute) and isinstance(tt.value, ast.Name) and tt.value.id == "self" and isinstance(tt.ctx, ast.Store):
+                                        mutable.add(tt.attr)
+            for name, f in cls.methods.items():
+                if f.cls is not cls or f.is_alias or isinstance(f.node, ast.Lambda):
+                    continue
+                defs = {}
+                for x in ast.walk(f.node):
+                    if isinstance(x, ast.Assign):
+                        for t in x.targets:
+                            if isinstance(t, ast.Name):
+                                defs.setdefault(t.id, []).append(x.value)
+                # stores  <cache>[key] = EXPR   (incl. chained  U = cache[key] = EXPR)
+                for x in ast.walk(f.node):
+                    if not isinstance(x, ast.Assign):
+                        continue
+                    subs = [t for t in x.targets if isinstance(t, ast.Subscript) and isinstance(t.slice, ast.Name) and t.slice.id == "key"]
+                    if not subs or "key" not in defs:
+                        continue
+                    n += 1
+                    keyexpr = defs["key"][-1]
+                    keynames = {y.id for y in ast.walk(keyexpr) if isinstance(y, ast.Name)} | {
+                        y.attr for y in ast.walk(keyexpr) if isinstance(y, ast.Attribute) and src_of(y.value) == "self"}
+
+                    def attrs_in(e, depth=0):
+                        out = set()
+                        for y in ast.walk(e):
+                            if isinstance(y, ast.Attribute) and isinstance(y.value, ast.Name) and y.value.id == "self":
+                                out.add(y)
+                            if isinstance(y, ast.Name) and y.id in defs and depth < 4 and y.id != "key":
+                                for d in defs[y.id]:
+                                    if d is not e:
+                                        out |= attrs_in(d, depth + 1)
+                        return out
+
+                    value_attrs = set()
+                    for a in attrs_in(x.value):
+                        # an attribute used as the receiver of a method call is an object, not a value input
+                        is_receiver = any(isinstance(c, ast.Call) and isinstance(c.func, ast.Attribute) and c.func.value is a for c in ast.walk(f.node))
+                        if not is_receiver:
+                            value_attrs.add(a.attr)
+                    missing = sorted(a for a in value_attrs if a in mutable and a not in keynames)
+                    q = f"{cls.name}.{name}"
+                    if missing:
+                        r.bad(Finding("memo-key-complete", q,
+                                      f"memoises `{src_of(x.value)[:50]}` under key `{src_of(keyexpr)[:40]}` (line {x.lineno}) although it depends on self.{', self.'.join(missing)}, "
+                                      f"which can change after construction: a later call with a different value is served the stale entry",
+                                      where=f"{m.relpath}:{f.lineno}", operand=",".join(missing)))
+                    else:
+                        r.ok(q, sample={"method": q, "key": src_of(keyexpr)[:40], "depends on mutable attributes": "none outside the key"})
+    r.floor(n, 5, "memoising stores in TEBD / local Hamiltonian classes")
+    return r
+
+
+def rule_default_orientation(ctx):
+    r = RuleResult(
+        "default-orientation",
+        "LocalHam1D spreads a default two-site term only over bonds that have no specific term in *either* key "
+        "orientation: the guard of the default assignment tests both (a, b) and (b, a) for absence — testing one "
+        "orientation only (e.g. dict.setdefault) adds the default on top of a term supplied as (b, a)",
+    )
+    f = ctx.prog.func(TEBD1D, "LocalHam1D.__init__")
+    where = f"{f.module.relpath}:{f.lineno}"
+    dname = None
+    for x in ast.walk(f.node):
+        if isinstance(x, ast.Assign) and isinstance(x.value, ast.Call) and isinstance(x.value.func, ast.Attribute) and x.value.func.attr == "pop" \
+                and x.value.args and const_value(x.value.args[0], 0) is None and isinstance(x.targets[0], ast.Name) and "H2" in src_of(x.value.func.value):
+            dname = x.targets[0].id
+    if dname is None:
+        raise AnalysisError("LocalHam1D.__init__: default two-site term not found")
+    stores = []
+    for x in ast.walk(f.node):
+        if isinstance(x, ast.Assign) and isinstance(x.targets[0], ast.Subscript) and src_of(x.value) == dname:
+            stores.append(("store", x))
+        if isinstance(x, ast.Call) and isinstance(x.func, ast.Attribute) and x.func.attr == "setdefault" and len(x.args) == 2 and src_of(x.args[1]) == dname:
+            stores.append(("setdefault", x))
+    if not stores:
+        raise AnalysisError("LocalHam1D.__init__: default term is never assigned to a bond")
+    for kind, x in stores:
+        guard = None
+        for iff in ast.walk(f.node):
+            if isinstance(iff, ast.If) and any(x is y for s in iff.body for y in ast.walk(s)):
+                guard = iff
+        tests = []
+        if guard is not None:
+            for c in ast.walk(guard.test):
+                if isinstance(c, ast.Compare) and isinstance(c.ops[0], ast.NotIn) and isinstance(c.left, ast.Tuple) and len(c.left.elts) == 2:
+                    tests.append((src_of(c.left.elts[0]), src_of(c.left.elts[1])))
+        both = any((b, a) in tests for a, b in tests)
+        if kind == "store" and both:
+            r.ok("LocalHam1D.__init__[default guard]", sample={"guard": src_of(guard.test)[:80]})
+        else:
+            r.bad(Finding("default-orientation", "LocalHam1D.__init__",
+                          f"the default two-site term is assigned (line {x.lineno}, {kind}) without testing both key orientations for an existing term",
+                          where=where))
+    return r
